@@ -252,9 +252,9 @@ func decodePointsCompressed(d *decoder, level int, target []Point) {
 			d.err = fmt.Errorf("off center index = %d, should be < len(target) = %d", idx, len(target))
 			return
 		}
-		target[idx].X = d.readFloat64()
-		target[idx].Y = d.readFloat64()
-		target[idx].Z = d.readFloat64()
+		target[idx].X = d.readPointCoord()
+		target[idx].Y = d.readPointCoord()
+		target[idx].Z = d.readPointCoord()
 	}
 }
 
